@@ -468,6 +468,24 @@ func (r *Report) finish(verifDir string, wall float64, seed int, explanation str
 			undec = append(undec, fmt.Sprintf("rule %s matched %d instances, floor is %d (anchor drift: the rule would pass vacuously)", id, st.Instances, st.Floor))
 		}
 	}
+	// thorough: fold in the mutation self-test result written by scripts/mutants.py
+	var mutation any
+	if r.Tier == "thorough" {
+		mb, err := os.ReadFile(filepath.Join(verifDir, "evidence", "mutants-"+r.Prop+".json"))
+		if err != nil {
+			undec = append(undec, "thorough tier: mutation self-test result missing")
+		} else {
+			var mr struct {
+				Summary map[string]int `json:"summary"`
+				Results []any          `json:"results"`
+			}
+			json.Unmarshal(mb, &mr)
+			mutation = map[string]any{"summary": mr.Summary, "results": mr.Results}
+			if mr.Summary["MISSED"] > 0 || mr.Summary["invalid"] > 0 {
+				undec = append(undec, fmt.Sprintf("mutation self-test: %d mutants missed, %d invalid (a rule has gone blind on this tree)", mr.Summary["MISSED"], mr.Summary["invalid"]))
+			}
+		}
+	}
 	// evidence
 	obligations, discharged, nviol, nknown := 0, 0, 0, 0
 	distinct := map[string]bool{}
@@ -536,6 +554,7 @@ func (r *Report) finish(verifDir string, wall float64, seed int, explanation str
 			"load_s":              r.w.LoadS,
 			"repo":                r.w.RepoDir,
 			"checker_cmd":         "bin/einocheck -prop " + r.Prop + " -tier " + r.Tier,
+			"mutation_selftest":   mutation,
 		},
 	}
 	b, _ := json.MarshalIndent(ev, "", " ")
